@@ -45,6 +45,126 @@ def oracle_serial(r: dict) -> list[str]:
     return msgs
 
 
+def reentrant_case(request: str, hook_name: str) -> dict:
+    """A plugin issues a lifecycle request from inside a hook (config.py: "a trigger method can be called from a callback"): the run is
+    started from on_initialize_run — nested in the initialise transition of start() and, for the second run, of reset().  Recorded: every
+    state report (the on_change_state hook, which feeds the subscription) with the state attribute at that moment, and the subscription."""
+    import asyncio
+    from typing import Any
+    from .. import fakes, lifecycle, loop as ctl
+    from nextline.spawned import RunResult
+
+    async def main() -> dict:
+        from nextline.plugin.spec import hookimpl
+        sc = lifecycle.Scenario(0, 1, False, False)
+        await sc.setup()
+        nl = sc.nl
+        reports: list = []
+        sub: list = []
+        errors: list = []
+
+        class Probe:
+            @hookimpl
+            async def on_change_state(self, context: Any, state_name: str) -> None:
+                reports.append((state_name, nl.state))
+
+        async def request_it(context: Any) -> None:
+            try:
+                if request == 'run':
+                    await context.nextline.run()
+                else:
+                    await context.nextline.run_and_continue()
+            except Exception as e:  # noqa
+                errors.append(f'{type(e).__name__}: {e}')
+        if hook_name == 'on_initialize_run':
+            class Auto:
+                @hookimpl
+                async def on_initialize_run(self, context: Any) -> None:
+                    await request_it(context)
+        else:
+            class Auto:     # type: ignore[no-redef]
+                @hookimpl
+                async def on_change_state(self, context: Any, state_name: str) -> None:
+                    if state_name == 'initialized':
+                        await request_it(context)
+        nl.register(Probe())
+        nl.register(Auto())
+
+        async def watch() -> None:
+            async for x in nl.subscribe_state():
+                sub.append(x)
+        w = asyncio.ensure_future(watch())
+        await lifecycle.settle()
+        quiescent: list = []
+
+        def look(where: str) -> None:
+            try:
+                latest = nl.get('state_name')
+            except Exception:  # noqa
+                latest = None
+            quiescent.append((where, nl.state, latest, len(sc.world.live())))
+        t = asyncio.ensure_future(nl.start())
+        await lifecycle.settle()
+        look('after start()')
+        for c in sc.world.live():
+            c.exit(RunResult(ret=5), exitcode=0)
+        await lifecycle.settle()
+        look('after the first child exited')
+        t2 = asyncio.ensure_future(nl.reset())
+        await lifecycle.settle()
+        look('after reset()')
+        for c in sc.world.live():
+            c.exit(RunResult(ret=6), exitcode=0)
+        await lifecycle.settle()
+        look('after the second child exited')
+        out = {'request': request, 'hook': hook_name, 'reports': reports[:], 'quiescent': quiescent, 'errors': errors,
+               'start_done': t.done(), 'reset_done': t2.done()}
+        for c in sc.world.live():
+            c.exit(RunResult(ret=None), exitcode=0)
+        try:
+            await asyncio.wait_for(nl.close(), timeout=5)
+        except BaseException:  # noqa
+            pass
+        await lifecycle.settle()
+        out['subscription'] = sub[:]
+        for x in (w, t, t2):
+            x.cancel()
+        return out
+    fakes.install()
+    try:
+        return ctl.run(main, ctl.Fifo())
+    except (Exception, ctl.StepBudgetExceeded) as e:  # noqa
+        return {'request': request, 'hook': hook_name, 'error': f'{type(e).__name__}: {e}'}
+
+
+def reentrant_oracle(r: dict) -> tuple[list[str], list[str]]:
+    """(violations, the recorded finding's symptom)"""
+    if 'error' in r:
+        return [f'scenario failed: {r["error"]}'], []
+    who = f"a plugin calls {r['request']}() from inside {r['hook']} (a request nested in the initialise transition)"
+    m, known = [], []
+    false_reports = [(a, b) for a, b in r['reports'] if a != b]
+    if false_reports:
+        a, b = false_reports[0]
+        m.append(f'{who}: the state {a!r} was reported while the state attribute was {b!r} (reports with the attribute at that moment: {r["reports"]})')
+    for where, state, latest, live in r['quiescent']:
+        if latest is not None and latest != state:
+            m.append(f'{who}: {where} the last published state is {latest!r}, the state attribute {state!r}')
+    names = [a for a, _ in r['reports']]
+    if r['subscription'][:len(names)] != names and names[:len(r['subscription'])] != r['subscription']:
+        m.append(f'{who}: the subscription yielded {r["subscription"]}, the reports were {names}')
+    # the edges, strictly: the reported sequence (consecutive repeats removed) starting from 'created'
+    seq = ['created']
+    for x in names:
+        if x != seq[-1]:
+            seq.append(x)
+    bad = [(a, b) for a, b in zip(seq, seq[1:]) if (a, b) not in _life.EDGES]
+    if bad and not false_reports:
+        known.append(f'{who}: the reported states {names} step {bad[0][0]!r} → {bad[0][1]!r}: the outer transition reports after the nested one has completed, '
+                     f'so its own destination is never reported')
+    return m, known
+
+
 def run(chk: common.Check) -> None:
     chk.cov.rule = ('serial histories over start/run/run_and_continue/run_continue_and_wait/reset(opts)/close/signals/send_command + child prompt/exit: '
                     'all histories up to a fixed length and seeded random longer ones, on the real Nextline with a simulated child (stock-order and '
@@ -83,4 +203,16 @@ def run(chk: common.Check) -> None:
             oracle_fail.append((c, attr, None))          # never seen on the unchanged tree: not a known finding
         if pubs:
             oracle_fail.append((c, pubs, 'overlap_published_states'))
+    for request in ('run', 'rac'):
+        # (a request issued from another implementation of on_change_state itself is not used: the implementations of one hook call run one
+        # after the other, so a probe implementation would sample the attribute after the nested transition — an artefact of the probe)
+        for hook_name in ('on_initialize_run',):
+            r = reentrant_case(request, hook_name)
+            chk.cov.case(('reentrant-request', request, hook_name))
+            chk.cov.count('kinds', 'request-issued-from-inside-a-hook')
+            m, known = reentrant_oracle(r)
+            if m:
+                oracle_fail.append(({'reentrant': r}, m, None))
+            elif known:
+                oracle_fail.append(({'reentrant': r}, known, 'nested_request_outer_destination_never_reported'))
     _life.finish(chk, 'C01', oracle_fail, dis, 'call results, state attribute, state publications')
